@@ -37,6 +37,20 @@ class World:
             S.enc(w_, S.t('ValidatorSet'), vs)
             st, parsed = mon.call(lambda: ValidatorSet.deserialize(bridge.to_lib(w_.cell()).begin_parse()))
             if st == 'ok' and isinstance(getattr(parsed, 'list', None), dict) and len(parsed.list) == n:
+                if rng.random() < 0.5:
+                    # ... and then through compute_validator_set (masterchain block: the first `main` validators), its result handed on as it is
+                    from pytoniq_core.proof.check_proof import compute_validator_set
+                    from pytoniq_core.tlb.config import CatchainConfig
+                    from pytoniq_core.tl.block import BlockIdExt
+                    cw = T.W()
+                    S.enc(cw, S.t('CatchainConfig'), {'_': 'catchain_config_new', 'flags': 0, 'shuffle_mc_validators': False, 'mc_catchain_lifetime': 250, 'shard_catchain_lifetime': 250,
+                                                      'shard_validators_lifetime': 1000, 'shard_validators_num': 23})
+                    cfg = CatchainConfig.deserialize(bridge.to_lib(cw.cell()).begin_parse())
+                    self.producer = lambda: compute_validator_set(cfg, BlockIdExt(-1, -(1 << 63), 1, bytes(32), bytes(32)), parsed)
+                    st2, res = mon.call(self.producer)
+                    if st2 == 'ok':
+                        self.route = 'compute_validator_set'
+                        return res
                 self.route = 'parsed-from-tlb'
                 return [parsed.list[i] for i in range(n)]
         self.route = 'constructed'
@@ -181,7 +195,9 @@ def run(R):
 
                 def judge_for(op, sigs, the_blk, world=world, nodes=nodes, weights=weights, wname=wname):
                     want, reason = r7(world, sigs, the_blk.root_hash, the_blk.file_hash)
-                    st, e = mon.call(check_block_signatures, list(nodes), [dict(s) for s in sigs], the_blk)
+                    # validator lists that come out of compute_validator_set are produced anew for every call and handed over as returned (not copied into a list)
+                    nodes_arg = world.producer() if getattr(world, 'route', '') == 'compute_validator_set' else list(nodes)
+                    st, e = mon.call(check_block_signatures, nodes_arg, [dict(s) for s in sigs], the_blk)
                     got = 'accept' if st == 'ok' else 'reject'
                     W = {'n': n, 'weights': [str(w) for w in weights[:20]], 'weight_class': wname, 'operator': op, 'reason': reason,
                          'signers': [next((i for i, p in enumerate(world.pubs) if node_id(p).hex() == s['node_id_short']), -1) for s in sigs][:40],
@@ -252,6 +268,9 @@ def run(R):
                         judge(f'{bname}-replaces:' + sname, honest[:j] + [bad] + honest[j + 1:])
                         judge(f'{bname}-added:' + sname, honest + [dict(bad, node_id_short=honest[j]['node_id_short'])] if rng.random() < 0.5 else [bad] + honest)
                         R.count('malformed_signature_cases', 2)
+                    x_ = rng.randbytes(rng.choice([1, 4, 32]))
+                    blob = {'node_id_short': honest[j]['node_id_short'], 'signature': world.keys[k].sign(x_ + msg).signature + x_}
+                    judge(f'signature-blob-with-message-prefix-replaces:' + sname, honest[:j] + [blob] + honest[j + 1:])
                     bads = [('foreign-signer', foreign), ('other-root-hash', other_root), ('other-file-hash', other_file), ('root-file-swapped', swapped),
                             ('no-magic', no_magic), ('other-message', other_msg), ('bit-flipped', flipped), ('wrong-key-right-id', wrong_key)]
                     if misattributed:
@@ -314,7 +333,8 @@ def run(R):
                              'seeds': [bytes(k).hex() for k in world.keys], 'root': root, 'file': fileh, 'reason': reason, 'weight_class': 'knife-edge'})
             R.case(mon.fp('knife', e, tuple(weights), tuple(signers)))
     R.floor('knife_edge_cases', 10)
-    R.floor('nodes_parsed-from-tlb', 500)
+    R.floor('nodes_parsed-from-tlb', 300)
+    R.floor('nodes_compute_validator_set', 300)
     R.floor('reweighted_cases', 100)
     R.floor('malformed_signature_cases', 50)
     R.floor('verdict_accept', 40)
